@@ -151,3 +151,532 @@ Section Total.
   Corollary register_no_panic t path m : register cfg t path <> Panic m.
   Proof. destruct (register_total t path) as (t' & n & E). rewrite E. discriminate. Qed.
 End Total.
+
+(* ------------------------------------------------------------------ no other panic *)
+Definition is_panic {A} (r : result A) : bool := match r with Panic _ => true | Ok _ => false end.
+
+Definition is_nil (c : code) : bool :=
+  match c with CNil | CNilStmt | CNilGroup => true | _ => false end.
+
+(* [anywhere P c]: some node of the tree c (c itself included) satisfies P *)
+Fixpoint anywhere (P : code -> bool) (c : code) {struct c} : bool :=
+  P c ||
+  match c with
+  | CGroup _ _ _ _ _ _ items => existsb (anywhere P) items
+  | CStmt items => existsb (anywhere P) items
+  | CDict pairs => existsb (fun kv => anywhere P (fst kv) || anywhere P (snd kv)) pairs
+  | _ => false
+  end.
+
+(* a literal of unsupported dynamic type *)
+Definition bad_lit (c : code) : bool :=
+  match c with CTok (TkLit (LBad _)) => true | _ => false end.
+Definition bad_lit_named (ty : str) (c : code) : bool :=
+  match c with CTok (TkLit (LBad ty')) => str_eqb ty ty' | _ => false end.
+(* a "values" group holding a Dict among two or more items *)
+Definition vdc (name : str) (n : nat) (l : list code) : bool :=
+  str_eqb name s_values && existsb is_dict l && Nat.ltb 1 n.
+Definition values_dict (c : code) : bool :=
+  match c with
+  | CGroup _ name _ _ _ _ items => vdc name (length items) items
+  | _ => false
+  end.
+
+(* the SYNTACTIC sufficient condition: the root is not a nil value, no unsupported literal
+   and no Values(Dict, x, ...) anywhere in the tree.  Nothing else is asked: nil items
+   below the root, any nesting, arity, tokens, size. *)
+Definition safe_in (c : code) : bool :=
+  negb (anywhere bad_lit c) && negb (anywhere values_dict c).
+Definition safe (c : code) : bool := negb (is_nil c) && safe_in c.
+
+(* which panic, and where it comes from *)
+Definition cause (m : str) (c : code) : Prop :=
+  (m = s_values_panic /\ anywhere values_dict c = true) \/
+  (exists ty, m = s_unsupported ++ ty /\ anywhere (bad_lit_named ty) c = true).
+
+Lemma anywhere_impl (P Q : code -> bool) :
+  (forall c, P c = true -> Q c = true) -> forall c, anywhere P c = true -> anywhere Q c = true.
+Proof.
+  intros HPQ.
+  induction c as [| | |tk|gid name o cl sep multi items IH|items IH|pairs IH|kvs|s] using code_ind';
+    cbn [anywhere]; intros H; apply orb_true_iff in H; apply orb_true_iff;
+    (destruct H as [H|H]; [left; apply HPQ; exact H|]); try discriminate; right.
+  - apply existsb_exists in H. destruct H as (x & Hx & H). apply existsb_exists. exists x.
+    split; [exact Hx|]. rewrite Forall_forall in IH. apply IH; assumption.
+  - apply existsb_exists in H. destruct H as (x & Hx & H). apply existsb_exists. exists x.
+    split; [exact Hx|]. rewrite Forall_forall in IH. apply IH; assumption.
+  - apply existsb_exists in H. destruct H as (kv & Hx & H). apply existsb_exists. exists kv.
+    split; [exact Hx|]. rewrite Forall_forall in IH. destruct (IH kv Hx) as [Hk Hv].
+    apply orb_true_iff in H. apply orb_true_iff. destruct H; [left; apply Hk | right; apply Hv]; assumption.
+Qed.
+
+Lemma bad_lit_named_bad ty c : anywhere (bad_lit_named ty) c = true -> anywhere bad_lit c = true.
+Proof.
+  apply anywhere_impl. intros [| | |[| | |[]| | |]| | | | |]; cbn; try discriminate. reflexivity.
+Qed.
+
+Lemma anywhere_group P gid name o cl sep multi items x :
+  In x items -> anywhere P x = true -> anywhere P (CGroup gid name o cl sep multi items) = true.
+Proof.
+  intros Hx H. cbn [anywhere]. apply orb_true_iff. right. apply existsb_exists. eauto.
+Qed.
+Lemma anywhere_stmt P items x : In x items -> anywhere P x = true -> anywhere P (CStmt items) = true.
+Proof.
+  intros Hx H. cbn [anywhere]. apply orb_true_iff. right. apply existsb_exists. eauto.
+Qed.
+Lemma anywhere_dict P pairs kv :
+  In kv pairs -> anywhere P (fst kv) = true \/ anywhere P (snd kv) = true -> anywhere P (CDict pairs) = true.
+Proof.
+  intros Hx H. cbn [anywhere]. apply orb_true_iff. right. apply existsb_exists. exists kv.
+  split; [exact Hx|]. apply orb_true_iff. exact H.
+Qed.
+
+Lemma cause_group m gid name o cl sep multi items x :
+  In x items -> cause m x -> cause m (CGroup gid name o cl sep multi items).
+Proof.
+  intros Hx [[-> H]|(ty & -> & H)]; [left | right; exists ty]; (split; [reflexivity|]);
+    eapply anywhere_group; eassumption.
+Qed.
+Lemma cause_stmt m items x : In x items -> cause m x -> cause m (CStmt items).
+Proof.
+  intros Hx [[-> H]|(ty & -> & H)]; [left | right; exists ty]; (split; [reflexivity|]);
+    eapply anywhere_stmt; eassumption.
+Qed.
+Lemma cause_dict m pairs kv :
+  In kv pairs -> cause m (fst kv) \/ cause m (snd kv) -> cause m (CDict pairs).
+Proof.
+  intros Hx [[[-> H]|(ty & -> & H)]|[[-> H]|(ty & -> & H)]];
+    [left | right; exists ty | left | right; exists ty]; (split; [reflexivity|]);
+    eapply anywhere_dict; eauto.
+Qed.
+
+Lemma vdc_cons name n c l : vdc name n l = true -> vdc name n (c :: l) = true.
+Proof.
+  unfold vdc. cbn [existsb]. intros H. apply andb_true_iff in H. destruct H as [H H3].
+  apply andb_true_iff in H. destruct H as [H1 H2]. rewrite H1, H2, H3, orb_true_r. reflexivity.
+Qed.
+Lemma vdc_head name n c l :
+  str_eqb name s_values && is_dict c && Nat.ltb 1 n = true -> vdc name n (c :: l) = true.
+Proof.
+  unfold vdc. cbn [existsb]. intros H. apply andb_true_iff in H. destruct H as [H H3].
+  apply andb_true_iff in H. destruct H as [H1 H2]. rewrite H1, H2, H3. reflexivity.
+Qed.
+
+Section NoPanic.
+  Variable cfg : config.
+
+  Lemma is_nil_null c t : is_nil c = true -> is_null cfg t c = true.
+  Proof. destruct c; try discriminate; reflexivity. Qed.
+
+  Lemma prereg_total t c : exists t0, prereg cfg t c = Ok t0.
+  Proof.
+    unfold prereg. destruct c as [| | |tk| | | | |]; eauto. destruct tk; eauto.
+    destruct (register_total cfg t path) as (t' & n & E). rewrite E. cbn [bind fst]. eauto.
+  Qed.
+
+  (* if rendering c panics, either c is itself a nil value or the tree holds the cause *)
+  Definition pc (c : code) : Prop :=
+    forall ctx t m, render cfg ctx t c = Panic m -> (is_nil c = true /\ m = s_nilptr) \/ cause m c.
+
+  Lemma pc_live c ctx t0 t m :
+    pc c -> is_null cfg t0 c = false -> render cfg ctx t c = Panic m -> cause m c.
+  Proof.
+    intros Hc Hn Hr. destruct (Hc _ _ _ Hr) as [[Hnil _]|H]; [|exact H].
+    rewrite (is_nil_null c t0 Hnil) in Hn. discriminate.
+  Qed.
+
+  Lemma group_loop_cause name sep multi nitems items :
+    Forall pc items ->
+    forall t first m, group_loop cfg (render cfg) name sep multi nitems t first items = Panic m ->
+      (m = s_values_panic /\ vdc name nitems items = true) \/ exists x, In x items /\ cause m x.
+  Proof.
+    intros Hst. induction Hst as [|c l Hc _ IH]; intros t first m; cbn [group_loop]; [discriminate|].
+    fold (prereg cfg t c). destruct (prereg_total t c) as [t0 E0]. rewrite E0. cbn [bind].
+    assert (Hrest : forall t' f', group_loop cfg (render cfg) name sep multi nitems t' f' l = Panic m ->
+              (m = s_values_panic /\ vdc name nitems (c :: l) = true) \/ exists x, In x (c :: l) /\ cause m x).
+    { intros t' f' H. destruct (IH _ _ _ H) as [[-> Hv]|(x & Hx & Hcx)].
+      - left. split; [reflexivity | apply vdc_cons; exact Hv].
+      - right. exists x. split; [right; exact Hx | exact Hcx]. }
+    destruct (is_null cfg t0 c) eqn:En; [apply Hrest|].
+    destruct (str_eqb name s_values && is_dict c && Nat.ltb 1 nitems) eqn:Ev.
+    - intros H. injection H as <-. left. split; [reflexivity | apply vdc_head; exact Ev].
+    - destruct (render cfg false t0 c) as [[ta sa]|m'] eqn:Er; cbn [bind fst snd].
+      + destruct (group_loop cfg (render cfg) name sep multi nitems ta false l) as [[[tb isb] sb]|m'] eqn:El;
+          cbn [bind fst snd]; [discriminate|].
+        intros H. injection H as <-. eapply Hrest. exact El.
+      + intros H. injection H as <-. right. exists c. split; [left; reflexivity|].
+        eapply pc_live; eassumption.
+  Qed.
+
+  Lemma stmt_loop_cause all items :
+    Forall pc items ->
+    forall t first m, stmt_loop cfg (render cfg) all t first items = Panic m ->
+      exists x, In x items /\ cause m x.
+  Proof.
+    intros Hst. induction Hst as [|c l Hc _ IH]; intros t first m; cbn [stmt_loop]; [discriminate|].
+    assert (Hrest : forall t' f', stmt_loop cfg (render cfg) all t' f' l = Panic m ->
+              exists x, In x (c :: l) /\ cause m x).
+    { intros t' f' H. destruct (IH _ _ _ H) as (x & Hx & Hcx). exists x. split; [right; exact Hx | exact Hcx]. }
+    destruct (is_null cfg t c) eqn:En; [apply Hrest|].
+    destruct (render cfg (case_ctx all c) t c) as [[ta sa]|m'] eqn:Er; cbn [bind fst snd].
+    - destruct (stmt_loop cfg (render cfg) all ta false l) as [[tb sb]|m'] eqn:El; cbn [bind fst snd]; [discriminate|].
+      intros H. injection H as <-. eapply Hrest. exact El.
+    - intros H. injection H as <-. exists c. split; [left; reflexivity|]. eapply pc_live; eassumption.
+  Qed.
+
+  Definition entry_ok (Q : str -> Prop) (e : dict_entry) : Prop :=
+    forall t m, (snd (fst e) t = Panic m -> Q m) /\ (snd e t = Panic m -> Q m).
+
+  Definition Qd (pairs : list (code * code)) (m : str) : Prop :=
+    exists kv, In kv pairs /\ (cause m (fst kv) \/ cause m (snd kv)).
+
+  Lemma Qd_cons kv l m : Qd l m -> Qd (kv :: l) m.
+  Proof. intros (x & Hx & H). exists x. split; [right; exact Hx | exact H]. Qed.
+
+  Lemma dict_pass1_cause pairs :
+    Forall (fun kv => pc (fst kv) /\ pc (snd kv)) pairs ->
+    forall t, match dict_pass1 cfg (render cfg) t pairs with
+              | Panic m => Qd pairs m
+              | Ok (_, es) => Forall (entry_ok (Qd pairs)) es
+              end.
+  Proof.
+    intros Hst. induction Hst as [|[k v] l [Hk Hv] _ IH]; intros t; cbn [dict_pass1 fst snd]; [constructor|].
+    cbn [fst snd] in Hk, Hv.
+    assert (Hrest : forall t', match dict_pass1 cfg (render cfg) t' l with
+                               | Panic m => Qd ((k, v) :: l) m
+                               | Ok (_, es) => Forall (entry_ok (Qd ((k, v) :: l))) es
+                               end).
+    { intros t'. specialize (IH t'). destruct (dict_pass1 cfg (render cfg) t' l) as [[t1 es]|m].
+      - eapply Forall_impl; [|exact IH]. intros e He t2 m. destruct (He t2 m) as [H1 H2].
+        split; intros H; apply Qd_cons; auto.
+      - apply Qd_cons. exact IH. }
+    destruct (is_null cfg t k || is_null cfg t v) eqn:En; [apply Hrest|].
+    apply orb_false_iff in En. destruct En as [Enk Env].
+    destruct (render cfg false t k) as [[ta sa]|m'] eqn:Er; cbn [bind fst snd].
+    - specialize (Hrest ta). destruct (dict_pass1 cfg (render cfg) ta l) as [[tb esb]|m'] eqn:El; cbn [bind fst snd]; [|exact Hrest].
+      constructor; [|exact Hrest]. intros t2 m. cbn [fst snd]. split; intros H.
+      + exists (k, v). split; [left; reflexivity|]. left. eapply pc_live; eassumption.
+      + exists (k, v). split; [left; reflexivity|]. right. eapply pc_live; eassumption.
+    - exists (k, v). split; [left; reflexivity|]. left. eapply pc_live; eassumption.
+  Qed.
+
+  Lemma dict_pass2_cause Q l :
+    Forall (entry_ok Q) l ->
+    forall several t first m, dict_pass2 several t first l = Panic m -> Q m.
+  Proof.
+    intros Hst. induction Hst as [|e l He _ IH]; intros several t first m; cbn [dict_pass2]; [discriminate|].
+    destruct (snd (fst e) t) as [[ta sa]|m'] eqn:Ek; cbn [bind fst snd].
+    - destruct (snd e ta) as [[tb sb]|m''] eqn:Ev; cbn [bind fst snd].
+      + destruct (dict_pass2 several tb false l) as [[tc sc]|m3] eqn:El; cbn [bind fst snd]; [discriminate|].
+        intros H. injection H as <-. eapply IH. exact El.
+      + intros H. injection H as <-. destruct (He ta m'') as [_ H2]. apply H2. exact Ev.
+    - intros H. injection H as <-. destruct (He t m') as [H1 _]. apply H1. exact Ek.
+  Qed.
+
+  Lemma Forall_perm' {A} (P : A -> Prop) l l' : Permutation l l' -> Forall P l -> Forall P l'.
+  Proof.
+    intros Hp H. rewrite Forall_forall in *. intros x Hx. apply H.
+    eapply Permutation_in; [apply Permutation_sym|]; eassumption.
+  Qed.
+
+  (* THE PANIC CLASSIFICATION, for every tree, configuration, context and table (no
+     hypothesis): a panic is the nil dereference of a nil ROOT, or the Values/Dict panic of
+     a values group that is in the tree, or the unsupported-literal panic of a literal that
+     is in the tree.  In particular the model's fuel panic never occurs. *)
+  Theorem render_panic_cause : forall c, pc c.
+  Proof.
+    induction c as [| | |tk|gid name o cl sep multi items IH|items IH|pairs IH|kvs|s] using code_ind';
+      intros ctx t m; cbn [render].
+    - intros H. injection H as <-. left. split; reflexivity.
+    - intros H. injection H as <-. left. split; reflexivity.
+    - intros H. injection H as <-. left. split; reflexivity.
+    - destruct tk; cbn [render_token]; try discriminate.
+      + intros H. exfalso. eapply register_no_panic. exact H.
+      + destruct l; cbn [lit_text bind]; try discriminate; [destruct b; discriminate|].
+        intros H. injection H as <-. right. right. exists tyname. split; [reflexivity|].
+        cbn. rewrite str_eqb_refl. reflexivity.
+    - destruct (str_eqb name s_types && forallb (is_null cfg t) items); [discriminate|].
+      destruct (group_loop cfg (render cfg) name sep multi (length items) t true items) as [[[ta isa] sa]|m'] eqn:El;
+        cbn [bind fst snd]; [discriminate|].
+      intros H. injection H as <-. right.
+      destruct (group_loop_cause _ _ _ _ _ IH _ _ _ El) as [[-> Hv]|(x & Hx & Hcx)].
+      + left. split; [reflexivity|]. cbn [anywhere values_dict]. rewrite Hv. reflexivity.
+      + eapply cause_group; eassumption.
+    - intros H. right. destruct (stmt_loop_cause _ _ IH _ _ _ H) as (x & Hx & Hcx).
+      eapply cause_stmt; eassumption.
+    - pose proof (dict_pass1_cause pairs IH t) as H1.
+      destruct (dict_pass1 cfg (render cfg) t pairs) as [[ta es]|m'] eqn:E1; cbn [bind fst snd].
+      + intros H2. right.
+        assert (Hs : Forall (entry_ok (Qd pairs)) (isort_by dict_key es)).
+        { eapply Forall_perm'; [apply Permutation_sym, isort_by_perm | exact H1]. }
+        destruct (dict_pass2_cause _ _ Hs _ _ _ _ H2) as (kv & Hkv & Hc).
+        eapply cause_dict; eassumption.
+      + intros H. injection H as <-. right. destruct H1 as (kv & Hkv & Hc).
+        eapply cause_dict; eassumption.
+    - discriminate.
+    - discriminate.
+  Qed.
+
+  (* TOTALITY on safe trees *)
+  Theorem safe_total c : safe c = true -> forall ctx t, exists t1 s, render cfg ctx t c = Ok (t1, s).
+  Proof.
+    intros Hs ctx t. unfold safe, safe_in in Hs. apply andb_true_iff in Hs. destruct Hs as [H1 Hs].
+    apply andb_true_iff in Hs. destruct Hs as [H2 H3].
+    apply negb_true_iff in H1, H2, H3.
+    destruct (render cfg ctx t c) as [[t1 s]|m] eqn:E; [eauto|]. exfalso.
+    destruct (render_panic_cause c _ _ _ E) as [[Hn _]|[[_ Hv]|(ty & _ & Hb)]].
+    - congruence.
+    - congruence.
+    - apply bad_lit_named_bad in Hb. congruence.
+  Qed.
+End NoPanic.
+
+Lemma existsb_false_forallb {A} (f : A -> bool) l :
+  forallb (fun x => negb (f x)) l = true -> existsb f l = false.
+Proof.
+  induction l as [|x l IH]; cbn [forallb existsb]; [reflexivity|]. intros H.
+  apply andb_true_iff in H. destruct H as [Hx Hl]. apply negb_true_iff in Hx. rewrite Hx, (IH Hl). reflexivity.
+Qed.
+
+(* a group of safe items is safe unless it is itself a Values(Dict, x, ...) *)
+Lemma safe_group gid name o cl sep multi items :
+  forallb safe_in items = true -> vdc name (length items) items = false ->
+  safe (CGroup gid name o cl sep multi items) = true.
+Proof.
+  intros Hi Hv. unfold safe, safe_in. cbn [is_nil negb andb anywhere bad_lit values_dict orb].
+  rewrite Hv. cbn [orb].
+  rewrite forallb_forall in Hi.
+  rewrite !existsb_false_forallb; [reflexivity | |]; apply forallb_forall; intros x Hx;
+    specialize (Hi x Hx); unfold safe_in in Hi; apply andb_true_iff in Hi; tauto.
+Qed.
+
+(* ------------------------------------------------------------------ the exact criterion *)
+(* Under cfg_ok null-ness does not change during a render (registrations never turn a path
+   into or out of a dot import), so whether a panic is REACHED can be read off the tree at
+   the initial table: a node is visited iff its ancestors are live (non-null) there. *)
+Lemma existsb_eq_in {A} (f g : A -> bool) l : (forall x, In x l -> f x = g x) -> existsb f l = existsb g l.
+Proof.
+  induction l as [|x l IH]; intros H; [reflexivity|]. cbn [existsb].
+  rewrite (H x (or_introl eq_refl)), IH; [reflexivity|]. intros y Hy. apply H. right. exact Hy.
+Qed.
+Lemma forallb_eq_in {A} (f g : A -> bool) l : (forall x, In x l -> f x = g x) -> forallb f l = forallb g l.
+Proof.
+  induction l as [|x l IH]; intros H; [reflexivity|]. cbn [forallb].
+  rewrite (H x (or_introl eq_refl)), IH; [reflexivity|]. intros y Hy. apply H. right. exact Hy.
+Qed.
+Lemma existsb_orb {A} (f g : A -> bool) l : existsb (fun x => f x || g x) l = existsb f l || existsb g l.
+Proof.
+  induction l as [|x l IH]; [reflexivity|]. cbn [existsb]. rewrite IH.
+  destruct (f x), (g x), (existsb f l), (existsb g l); reflexivity.
+Qed.
+Lemma existsb_perm {A} (f : A -> bool) l l' : Permutation l l' -> existsb f l = existsb f l'.
+Proof.
+  induction 1 as [|x l l' _ IH|x y l|l l' l'' _ IH1 _ IH2]; cbn [existsb].
+  - reflexivity.
+  - rewrite IH. reflexivity.
+  - destruct (f x), (f y); reflexivity.
+  - rewrite IH1. exact IH2.
+Qed.
+
+Lemma is_panic_bind_ok {A B} (r : result A) (f : A -> B) : is_panic (bind r (fun a => Ok (f a))) = is_panic r.
+Proof. destruct r; reflexivity. Qed.
+
+Section Exact.
+  Variable cfg : config.
+
+  Fixpoint reach (t : table) (c : code) {struct c} : bool :=
+    match c with
+    | CNil | CNilStmt | CNilGroup => true
+    | CTok (TkLit (LBad _)) => true
+    | CTok _ => false
+    | CGroup _ name _ _ _ _ items =>
+      if str_eqb name s_types && forallb (is_null cfg t) items then false
+      else existsb (fun x => negb (is_null cfg t x) &&
+                             ((str_eqb name s_values && is_dict x && Nat.ltb 1 (length items)) || reach t x)) items
+    | CStmt items => existsb (fun x => negb (is_null cfg t x) && reach t x) items
+    | CDict pairs =>
+      existsb (fun kv => negb (is_null cfg t (fst kv) || is_null cfg t (snd kv)) &&
+                         (reach t (fst kv) || reach t (snd kv))) pairs
+    | CTag _ | CComment _ => false
+    end.
+
+  Definition g_item (t : table) (name : str) (n : nat) (x : code) : bool :=
+    negb (is_null cfg t x) && ((str_eqb name s_values && is_dict x && Nat.ltb 1 n) || reach t x).
+  Definition s_item (t : table) (x : code) : bool := negb (is_null cfg t x) && reach t x.
+  Definition live (t : table) (kv : code * code) : bool :=
+    negb (is_null cfg t (fst kv) || is_null cfg t (snd kv)).
+  Definition d_item (t : table) (kv : code * code) : bool :=
+    live t kv && (reach t (fst kv) || reach t (snd kv)).
+
+  Lemma reach_group t gid name o cl sep multi items :
+    reach t (CGroup gid name o cl sep multi items) =
+    if str_eqb name s_types && forallb (is_null cfg t) items then false
+    else existsb (g_item t name (length items)) items.
+  Proof. reflexivity. Qed.
+  Lemma reach_stmt t items : reach t (CStmt items) = existsb (s_item t) items.
+  Proof. reflexivity. Qed.
+  Lemma reach_dict t pairs : reach t (CDict pairs) = existsb (d_item t) pairs.
+  Proof. reflexivity. Qed.
+
+  Lemma forallb_null_ext t t' l : ext cfg t t' -> forallb (is_null cfg t') l = forallb (is_null cfg t) l.
+  Proof. intros H. apply forallb_eq_in. intros x _. apply is_null_ext. exact H. Qed.
+
+  Lemma reach_ext t t' c : ext cfg t t' -> reach t' c = reach t c.
+  Proof.
+    intros He.
+    induction c as [| | |tk|gid name o cl sep multi items IH|items IH|pairs IH|kvs|s] using code_ind';
+      try reflexivity.
+    - rewrite !reach_group, (forallb_null_ext _ _ _ He).
+      destruct (str_eqb name s_types && forallb (is_null cfg t) items); [reflexivity|].
+      apply existsb_eq_in. intros x Hx. rewrite Forall_forall in IH. unfold g_item.
+      rewrite (is_null_ext cfg _ _ x He), (IH x Hx). reflexivity.
+    - rewrite !reach_stmt. apply existsb_eq_in. intros x Hx. rewrite Forall_forall in IH. unfold s_item.
+      rewrite (is_null_ext cfg _ _ x He), (IH x Hx). reflexivity.
+    - rewrite !reach_dict. apply existsb_eq_in. intros kv Hx. rewrite Forall_forall in IH.
+      destruct (IH kv Hx) as [Hk Hv]. unfold d_item, live.
+      rewrite !(is_null_ext cfg _ _ _ He), Hk, Hv. reflexivity.
+  Qed.
+
+  Hypothesis Hcfg : cfg_ok cfg.
+
+  Definition ex (c : code) : Prop := forall ctx t, is_panic (render cfg ctx t c) = reach t c.
+
+  Lemma render_ok_ext c ctx t t1 s : render cfg ctx t c = Ok (t1, s) -> ext cfg t t1.
+  Proof. intros H. destruct (render_stable cfg Hcfg c ctx _ _ _ H) as [He _]. exact He. Qed.
+
+  Lemma prereg_ext t c t0 : prereg cfg t c = Ok t0 -> ext cfg t t0.
+  Proof. intros H. destruct (prereg_stable cfg Hcfg _ _ _ H) as [He _]. exact He. Qed.
+
+  Lemma group_loop_exact name sep multi nitems items :
+    Forall ex items ->
+    forall t first, is_panic (group_loop cfg (render cfg) name sep multi nitems t first items)
+                    = existsb (g_item t name nitems) items.
+  Proof.
+    intros Hst. induction Hst as [|c l Hc _ IH]; intros t first; cbn [group_loop existsb]; [reflexivity|].
+    fold (prereg cfg t c). destruct (prereg_total cfg t c) as [t0 E0]. rewrite E0. cbn [bind].
+    pose proof (prereg_ext _ _ _ E0) as He0.
+    assert (Hrest : forall t' f', ext cfg t t' ->
+              is_panic (group_loop cfg (render cfg) name sep multi nitems t' f' l) = existsb (g_item t name nitems) l).
+    { intros t' f' He. rewrite IH. apply existsb_eq_in. intros x _. unfold g_item.
+      rewrite (is_null_ext cfg _ _ x He), (reach_ext _ _ x He). reflexivity. }
+    unfold g_item at 1. rewrite (is_null_ext cfg _ _ c He0).
+    destruct (is_null cfg t c) eqn:En; cbn [negb andb orb]; [apply Hrest; exact He0|].
+    destruct (str_eqb name s_values && is_dict c && Nat.ltb 1 nitems) eqn:Ev; cbn [orb]; [reflexivity|].
+    rewrite <- (reach_ext _ _ c He0), <- (Hc false t0).
+    destruct (render cfg false t0 c) as [[ta sa]|m'] eqn:Er; cbn [bind fst snd is_panic orb]; [|reflexivity].
+    rewrite is_panic_bind_ok. apply Hrest.
+    eapply ext_trans; [exact He0 | eapply render_ok_ext; exact Er].
+  Qed.
+
+  Lemma stmt_loop_exact all items :
+    Forall ex items ->
+    forall t first, is_panic (stmt_loop cfg (render cfg) all t first items) = existsb (s_item t) items.
+  Proof.
+    intros Hst. induction Hst as [|c l Hc _ IH]; intros t first; cbn [stmt_loop existsb]; [reflexivity|].
+    assert (Hrest : forall t' f', ext cfg t t' ->
+              is_panic (stmt_loop cfg (render cfg) all t' f' l) = existsb (s_item t) l).
+    { intros t' f' He. rewrite IH. apply existsb_eq_in. intros x _. unfold s_item.
+      rewrite (is_null_ext cfg _ _ x He), (reach_ext _ _ x He). reflexivity. }
+    unfold s_item at 1.
+    destruct (is_null cfg t c) eqn:En; cbn [negb andb orb]; [apply Hrest; apply ext_refl|].
+    rewrite <- (Hc (case_ctx all c) t).
+    destruct (render cfg (case_ctx all c) t c) as [[ta sa]|m'] eqn:Er; cbn [bind fst snd is_panic orb]; [|reflexivity].
+    rewrite is_panic_bind_ok. apply Hrest. eapply render_ok_ext; exact Er.
+  Qed.
+
+  (* what the second pass needs to know about an entry, relative to the table t0 at which
+     the Dict started: the key renders (it did in the first pass) and the value's fate is
+     the same at every later table *)
+  Definition entry_inv (t0 : table) (e : dict_entry) : Prop :=
+    (forall t', ext cfg t0 t' -> exists t'' s, snd (fst e) t' = Ok (t'', s) /\ ext cfg t' t'') /\
+    (forall t', ext cfg t0 t' -> is_panic (snd e t') = is_panic (snd e t0)) /\
+    (forall t' t'' s, snd e t' = Ok (t'', s) -> ext cfg t' t'').
+
+  Definition vpanic (t0 : table) (e : dict_entry) : bool := is_panic (snd e t0).
+
+  Lemma dict_pass2_exact t0 several l :
+    Forall (entry_inv t0) l ->
+    forall t first, ext cfg t0 t -> is_panic (dict_pass2 several t first l) = existsb (vpanic t0) l.
+  Proof.
+    intros Hst. induction Hst as [|e l (Hk & Hv & Hve) _ IH]; intros t first He; cbn [dict_pass2 existsb]; [reflexivity|].
+    destruct (Hk t He) as (ta & sa & Ek & Hea). rewrite Ek. cbn [bind fst snd].
+    pose proof (ext_trans cfg _ _ _ He Hea) as H0a.
+    unfold vpanic at 1. rewrite <- (Hv ta H0a).
+    destruct (snd e ta) as [[tb sb]|m'] eqn:Ev; cbn [bind fst snd is_panic orb]; [|reflexivity].
+    rewrite is_panic_bind_ok. apply IH. eapply ext_trans; [exact H0a | eapply Hve; exact Ev].
+  Qed.
+
+  Lemma dict_pass1_exact pairs :
+    Forall (fun kv => ex (fst kv) /\ ex (snd kv)) pairs ->
+    forall t0 t, ext cfg t0 t ->
+      match dict_pass1 cfg (render cfg) t pairs with
+      | Panic _ => existsb (fun kv => live t0 kv && reach t0 (fst kv)) pairs = true
+      | Ok (t1, es) =>
+        ext cfg t t1 /\
+        existsb (fun kv => live t0 kv && reach t0 (fst kv)) pairs = false /\
+        Forall (entry_inv t0) es /\
+        existsb (vpanic t0) es = existsb (fun kv => live t0 kv && reach t0 (snd kv)) pairs
+      end.
+  Proof.
+    intros Hst. induction Hst as [|[k v] l [Hk Hv] _ IH]; intros t0 t He; cbn [dict_pass1 fst snd existsb].
+    - split; [apply ext_refl|]. split; [reflexivity|]. split; [constructor | reflexivity].
+    - cbn [fst snd] in Hk, Hv.
+      assert (Hl : live t0 (k, v) = negb (is_null cfg t k || is_null cfg t v)).
+      { unfold live. cbn [fst snd]. rewrite !(is_null_ext cfg _ _ _ He). reflexivity. }
+      rewrite !Hl. clear Hl.
+      destruct (is_null cfg t k || is_null cfg t v) eqn:En; cbn [negb andb orb]; [apply IH; exact He|].
+      pose proof (Hk false t) as Hkt. rewrite (reach_ext _ _ k He) in Hkt.
+      destruct (render cfg false t k) as [[ta sa]|m'] eqn:Er; cbn [bind fst snd is_panic] in *.
+      + rewrite <- Hkt. cbn [orb].
+        pose proof (render_ok_ext _ _ _ _ _ Er) as Hea.
+        pose proof (ext_trans cfg _ _ _ He Hea) as H0a.
+        specialize (IH t0 ta H0a).
+        destruct (dict_pass1 cfg (render cfg) ta l) as [[tb esb]|m'] eqn:El; cbn [bind fst snd]; [|exact IH].
+        destruct IH as (Heb & Hkf & Hes & Hvs).
+        split; [eapply ext_trans; eassumption|]. split; [exact Hkf|]. split.
+        * constructor; [|exact Hes]. split; [|split]; cbn [fst snd].
+          -- intros t' He'. pose proof (Hk false t') as Hp. rewrite (reach_ext _ _ k He'), <- Hkt in Hp.
+             destruct (render cfg false t' k) as [[t'' s'']|m''] eqn:Er'; [|discriminate].
+             exists t'', s''. split; [reflexivity | eapply render_ok_ext; exact Er'].
+          -- intros t' He'. rewrite (Hv false t'), (Hv false t0). apply reach_ext. exact He'.
+          -- intros t' t'' s''. apply render_ok_ext.
+        * cbn [existsb]. unfold vpanic at 1. cbn [snd]. rewrite (Hv false t0), Hvs. reflexivity.
+      + rewrite <- Hkt. reflexivity.
+  Qed.
+
+  (* THE EXACT CRITERION: rendering panics iff a panic is reached *)
+  Theorem render_panics_iff_reach : forall c, ex c.
+  Proof.
+    induction c as [| | |tk|gid name o cl sep multi items IH|items IH|pairs IH|kvs|s] using code_ind';
+      intros ctx t; try reflexivity.
+    - cbn [render]. destruct tk; try reflexivity.
+      + cbn [render_token reach]. destruct (register_total cfg t path) as (t' & n & E). rewrite E. reflexivity.
+      + destruct l; try reflexivity. destruct b; reflexivity.
+    - rewrite reach_group. cbn [render].
+      destruct (str_eqb name s_types && forallb (is_null cfg t) items); [reflexivity|].
+      rewrite is_panic_bind_ok. apply group_loop_exact. exact IH.
+    - rewrite reach_stmt. cbn [render]. apply stmt_loop_exact. exact IH.
+    - rewrite reach_dict. cbn [render].
+      pose proof (dict_pass1_exact pairs IH t t (ext_refl cfg t)) as H1.
+      assert (Hsplit : existsb (d_item t) pairs =
+                       existsb (fun kv => live t kv && reach t (fst kv)) pairs ||
+                       existsb (fun kv => live t kv && reach t (snd kv)) pairs).
+      { rewrite <- existsb_orb. apply existsb_eq_in. intros kv _. unfold d_item.
+        destruct (live t kv); reflexivity. }
+      rewrite Hsplit.
+      destruct (dict_pass1 cfg (render cfg) t pairs) as [[ta es]|m'] eqn:E1; cbn [bind fst snd is_panic].
+      + destruct H1 as (Hea & Hkf & Hes & Hvs). rewrite Hkf, <- Hvs. cbn [orb].
+        rewrite (dict_pass2_exact t _ (isort_by dict_key es)).
+        * apply existsb_perm, isort_by_perm.
+        * eapply Forall_perm'; [apply Permutation_sym, isort_by_perm | exact Hes].
+        * exact Hea.
+      + rewrite H1. reflexivity.
+  Qed.
+
+  Corollary render_panics_iff c ctx t : (exists m, render cfg ctx t c = Panic m) <-> reach t c = true.
+  Proof.
+    rewrite <- (render_panics_iff_reach c ctx t). destruct (render cfg ctx t c) as [r|m]; cbn [is_panic].
+    - split; [intros [m H]; discriminate | discriminate].
+    - split; [reflexivity | intros _; exists m; reflexivity].
+  Qed.
+End Exact.
